@@ -22,9 +22,9 @@ import (
 //	              channel of element kind int, int8, uint16, bool, string, float64, float32, []int,
 //	              [2]int, struct, pointer, interface, map — with 1-3 live locals of the element's
 //	              register class and 0-3 int locals declared before the loop, all printed after it
-//	              (known defect range-chan-declared-var-int-register: with `:=` the loop variable is
-//	              given an int register whatever the element kind; the received elements land in
-//	              the register of that number in the element's own class — a live local)
+//	              (nothing predicted: the loop variable declared by `:=` once got an int register
+//	              whatever the element kind and the elements landed in a live local, repaired by
+//	              3edea63)
 //	select-names  one select of 2-4 receive cases in the forms `v := <-c`, `v, ok := <-c`, `<-c`
 //	              over channels of the classes int/string/float64/[]int, one of them ready, the
 //	              names drawn from a pool of two (known defect select-comm-decl-shares-select-scope:
@@ -32,11 +32,10 @@ import (
 //	select-break  `break` in a clause of a select: unlabelled (leaves the select), labelled with the
 //	              enclosing for, under a condition that is true or false, in a for-select loop that
 //	              goes on, next to breaks of a for or switch nested in the clause (known defect
-//	              break-in-select-clause-never-lands: the jump of a break whose innermost breakable
-//	              statement is the select is never given its address — when it is executed the
-//	              function starts again from its first instruction, for ever; and, a cause of its
-//	              own, labelled-break-out-of-for-select-ignores-label: the label of `break L` is
-//	              ignored, the break leaves at best the select and the for goes on for ever)
+//	              labelled-break-out-of-for-select-ignores-label: the label of `break L` is
+//	              ignored, the break leaves the select only and the for goes on for ever; the
+//	              unlabelled break, whose jump once was never given its address, is repaired by
+//	              5caa505 and must behave as under gc)
 
 // prediction: see above.
 type prediction struct {
@@ -144,35 +143,7 @@ func genRangeKind(r *proto.Rand) *program {
 	fmt.Fprintf(&b, "\tclose(c)\n\tbody@@(%s, c)\n", strings.Join(args, ", "))
 	fmt.Fprintf(&b, "\tt0, t1, t2 := %s, %s, %s\n\tprintln(%s, %s, %s)\n}\n", k.vals[0], k.vals[1], k.vals[2], show(k, "t0"), show(k, "t1"), show(k, "t2"))
 	p := &program{N: 4, M: 2, raw: b.String(), shapes: []string{"forms:range-kinds", "forms:range-kinds:" + k.class + []string{":decl", ":assign", ":novar"}[form]}}
-	// the prediction: with `:=` the loop variable gets int register ni+1; the elements are stored
-	// into register ni+1 of the element's class, which holds the parameter declared (ni+1)-th in
-	// that class (the channel, a general register, is declared after the nk of the kind)
-	if form == 0 && k.class != "int" && nvals > 0 && ni+1 <= nk {
-		p.predict = &prediction{id: "range-chan-declared-var-int-register", effect: "output-with"}
-		p.rangeTarget, p.rangeLast = ni+1, last
-	}
 	return p
-}
-
-// resolve turns the "output-with" prediction of a range-kinds program into an exact output, given
-// gc's output of the program: field `rangeTarget` of the first line shows the last element
-// received (its text is field `rangeLast` of the second line) instead of the local's own value.
-func (p *program) resolve(want string) {
-	if p.predict == nil || p.predict.effect != "output-with" {
-		return
-	}
-	id := p.predict.id
-	p.predict = nil
-	lines := strings.Split(want, "\n")
-	if len(lines) < 2 {
-		return
-	}
-	fields, texts := strings.Fields(lines[0]), strings.Fields(lines[1])
-	if p.rangeTarget > len(fields) || p.rangeLast >= len(texts) || fields[p.rangeTarget-1] == texts[p.rangeLast] {
-		return // nothing to see: the local holds that value already
-	}
-	fields[p.rangeTarget-1] = texts[p.rangeLast]
-	p.predict = &prediction{id: id, effect: "output", output: strings.Join(fields, " ") + "\n" + strings.Join(lines[1:], "\n")}
 }
 
 // genSelectNames: one point of the select-names matrix.
@@ -304,10 +275,9 @@ func genSelectBreak(r *proto.Rand) *program {
 	p := &program{N: 4, M: 2, raw: b.String(), shapes: []string{"forms:select-break", "forms:select-break:" + name}}
 	if executed {
 		p.shapes = append(p.shapes, "forms:select-break:break-of-select-executed")
-		p.predict = &prediction{id: "break-in-select-clause-never-lands", effect: "hang"}
 		if shape == 2 {
-			// a cause of its own: the label is ignored, the break would leave the select only
-			p.predict.id = "labelled-break-out-of-for-select-ignores-label"
+			// the label is ignored, the break leaves the select only: the for goes on for ever
+			p.predict = &prediction{id: "labelled-break-out-of-for-select-ignores-label", effect: "hang"}
 		}
 	}
 	return p
